@@ -338,6 +338,11 @@ func (v *Protocol) ReadMessage() (m *Message, err error) {
 			return nil, oe.WithMessage(err, "read message payload")
 		}
 
+		// The message is not completed yet, read the next chunk.
+		if m == nil {
+			continue
+		}
+
 		if err = v.onMessageArrivated(m); err != nil {
 			return nil, oe.WithMessage(err, "on message")
 		}
